@@ -110,8 +110,8 @@ Definition model_site (d : mdomain) (s : sites) (names : list string) (kind t r 
   else if String.eqb kind "tfluent" then ok_bit (trajectory_fluent d (s_objs s) ("f" +++ r) [obj_of t])
   else if String.eqb kind "tfact" then ok_bit (trajectory_fact d (s_objs s) ("q" +++ r) [obj_of t])
   else if String.eqb kind "forall_pre" then
-    (* every (m o) holds except for the object of type t: the forall over r fails iff that object is in range *)
-    match m_app d s ("chk" +++ r) (all_m s (obj_of t)) with
+    (* every (m x) holds, for objects and constants, except for the object of type t: the forall over r fails iff that object is in range *)
+    match m_app d s ("chk" +++ r) (all_m_consts s names (obj_of t)) with
     | Ok b => bit (negb b) | Err _ => "E"%char end
   else if String.eqb kind "forall_eff" then
     match m_succ d s ("eff" +++ r) (all_m s "") with
